@@ -518,9 +518,12 @@ class RealizeMemrefCasts(RewritePattern):
         # insert "copy to" for first use as input
         # walk parent op in order to find first use as input
         assert op.parent
+        first_use: Operation | None = None
         for use_op in op.parent.walk():
             if use_op not in uses:
                 continue
+            if first_use is None:
+                first_use = use_op
             # check if input
             is_input = False
             if isinstance(use_op, linalg.GenericOp):
@@ -530,10 +533,19 @@ class RealizeMemrefCasts(RewritePattern):
                 is_input = op.results[0] in use_op.inputs
             else:
                 is_input = True
+            if use_op.parent is not op.parent:
+                # a use in a nested region may not execute at all: the buffer is copied back after
+                # the enclosing op, so it has to hold the original data
+                is_input = True
             if is_input:
-                # insert copy op
+                # insert copy op before the first use of any kind (a copy placed after an earlier
+                # writer would overwrite what it wrote), in the block of the cast (a copy placed
+                # in a nested region runs once per iteration, or not at all)
+                while first_use.parent is not op.parent:
+                    first_use = first_use.parent_op()
+                    assert first_use is not None
                 copy_op = memref.CopyOp(source_op.source, op.dest)
-                rewriter.insert_op(copy_op, InsertPoint.before(use_op))
+                rewriter.insert_op(copy_op, InsertPoint.before(first_use))
                 break
 
         # insert "copy from" for last use as output
@@ -553,7 +565,11 @@ class RealizeMemrefCasts(RewritePattern):
                 # don't know if input or output, default to yes
                 is_output = True
             if is_output:
-                # insert copy op
+                # insert copy op in the block of the cast (a copy in a nested region that does not
+                # execute would lose what earlier writers produced)
+                while use_op.parent is not op.parent:
+                    use_op = use_op.parent_op()
+                    assert use_op is not None
                 copy_op = memref.CopyOp(op.dest, source_op.source)
                 rewriter.insert_op(copy_op, InsertPoint.after(use_op))
                 break
